@@ -668,6 +668,41 @@ func kmThaw(b []byte, into interface{}) interface{} {
 	return into
 }
 
+// c09CMPKeygenRaw: the one CMP key generation of a C09 run (n=3, t=1, cached primes), as bytes; shared by the key-material
+// cases and the abort-notice cases (c09_abort.go), whichever runs first.
+var c09cmpMat struct {
+	done bool
+	seed int64
+	raw  map[party.ID][]byte
+	err  error
+}
+
+func c09CMPKeygenRaw(seed0 int64) (map[party.ID][]byte, error) {
+	if c09cmpMat.done && c09cmpMat.seed == seed0 {
+		return c09cmpMat.raw, c09cmpMat.err
+	}
+	g := curve.Secp256k1{}
+	ids := idsOf("alice", "bob", "carl")
+	usePrimeCache()
+	det := installDetReader(seed0, 0)
+	kg := SessionSpec{Name: "cmp-keygen", IDs: ids, SessionID: []byte("c09-km-kg"),
+		Start: func(id party.ID) protocol.StartFunc { return cmp.Keygen(g, id, ids, 1, cmpPool) }}.build(rand.New(rand.NewSource(1)), det)
+	kg.RunFIFO(100000)
+	restoreRandReader()
+	c09cmpMat.done, c09cmpMat.seed, c09cmpMat.raw, c09cmpMat.err = true, seed0, nil, nil
+	cfgs, err := cmpConfigsOf(kg)
+	if err != nil {
+		c09cmpMat.err = err
+		return nil, err
+	}
+	raw := map[party.ID][]byte{}
+	for id, cf := range cfgs {
+		raw[id] = kmFreeze(cf)
+	}
+	c09cmpMat.raw = raw
+	return raw, nil
+}
+
 func (c *ctx) c09KeyMaterial(only *kmReplay) {
 	g := curve.Secp256k1{}
 	ids := idsOf("alice", "bob", "carl")
@@ -685,20 +720,10 @@ func (c *ctx) c09KeyMaterial(only *kmReplay) {
 	var protos []*kmProto
 	// ---- material (sequential, deterministic reader installed process-wide) ----
 	if wantPrefix("cmp") {
-		usePrimeCache()
-		det := installDetReader(seed0, 0)
-		kg := SessionSpec{Name: "cmp-keygen", IDs: ids, SessionID: []byte("c09-km-kg"),
-			Start: func(id party.ID) protocol.StartFunc { return cmp.Keygen(g, id, ids, 1, cmpPool) }}.build(rand.New(rand.NewSource(1)), det)
-		kg.RunFIFO(100000)
-		restoreRandReader()
-		cfgs, err := cmpConfigsOf(kg)
+		raw, err := c09CMPKeygenRaw(seed0)
 		if err != nil {
 			c.res.Note("C09 key material: CMP key generation did not complete: %v", err)
 		} else {
-			raw := map[party.ID][]byte{}
-			for id, cf := range cfgs {
-				raw[id] = kmFreeze(cf)
-			}
 			thaw := func() map[party.ID]interface{} {
 				out := map[party.ID]interface{}{}
 				for id, b := range raw {
